@@ -4,6 +4,7 @@ from .common import MachineryError
 
 RUNNER = {"quick": [("MC_PamsRunner_quick", 900)], "thorough": [("MC_PamsRunner_quick", 900), ("MC_PamsRunner_thorough", 5400)]}
 SYSTEM = {"quick": [], "thorough": [("MC_PamsSystem_quick", 1800)]}
+SYSTEM_HALT = [("MC_PamsSystem_halt", 900)]
 HALT = {"quick": [("MC_PamsHalt_quick", 900)], "thorough": [("MC_PamsHalt_quick", 900), ("MC_PamsHalt_fixed", 3600)]}
 TABLE_EVENTS = [("MC_TableEvents", 900)]
 LOGGER = {"quick": [("MC_PamsLogger_quick", 600)], "thorough": [("MC_PamsLogger_quick", 600), ("MC_PamsLogger_thorough", 1800)]}
@@ -16,9 +17,9 @@ def plan(prop, tier):
     if prop in ("C14", "C15", "C17"):
         return TABLE_EVENTS
     if prop == "C16":
-        return HALT[tier] + TABLE_EVENTS
+        return HALT[tier] + SYSTEM_HALT + TABLE_EVENTS
     if prop == "C09":
-        return RUNNER[tier] + HALT[tier] + SYSTEM[tier]
+        return RUNNER[tier] + HALT[tier] + SYSTEM[tier] + (SYSTEM_HALT if tier == "thorough" else [])
     if prop == "C05":
         return RUNNER[tier] + SYSTEM[tier]
     if prop == "C13":
